@@ -498,9 +498,97 @@ def _junk(real, j):
     return pool[j % len(pool)]
 
 
+def enumerate_cases(tier):
+    """the library's own producers and listeners: a data producer that outlives a replication, a simulation statistic
+    and ordinary listeners on the same event type, across re-initialisations of the simulator"""
+    cases = []
+    for stat in ("SimCounter", "SimTally", "SimPersistent"):
+        for user_first in (True, False):
+            for reinits in (1, 2):
+                cases.append({"kind": "sim-listeners", "stat": stat, "user_first": user_first, "reinits": reinits})
+    return cases
+
+
+def _run_sim_listeners(case, out):
+    """An ordinary listener subscribed to a long-lived producer stays subscribed (and is notified exactly once per
+    fire, in subscription order relative to other ordinary listeners) however often the simulator - whose
+    statistics listen to the same producer and event type - is initialised again."""
+    from pydsol.core import statistics as S
+    from pydsol.core.experiment import SingleReplication
+    from pydsol.core.interfaces import StatEvents
+    from pydsol.core.model import DSOLModel
+    from pydsol.core.pubsub import EventListener, EventProducer
+    from pydsol.core.simulator import DEVSSimulatorFloat
+    et = StatEvents.TIMESTAMP_DATA_EVENT if case["stat"] == "SimPersistent" else StatEvents.DATA_EVENT
+    prod = EventProducer()
+    got = []
+
+    class L(EventListener):
+        def __init__(self, name):
+            self.name = name
+
+        def notify(self, event):
+            got.append((self.name, event.content))
+
+    la, lb = L("a"), L("b")
+    sim = DEVSSimulatorFloat("c08-sim")
+
+    class M(DSOLModel):
+        def construct_model(self):
+            st_ = getattr(S, case["stat"])("k", "stat", self.simulator)
+            st_.listen_to(prod, et)
+            self.stat = st_
+
+    def fire(v):
+        if et is StatEvents.TIMESTAMP_DATA_EVENT:
+            prod.fire_timed(float(v), et, float(v))
+        else:
+            prod.fire(et, v if case["stat"] == "SimCounter" else float(v))
+    try:
+        model = M(sim)
+        if case["user_first"]:
+            prod.add_listener(et, la)
+        sim.initialize(model, SingleReplication("r", 0.0, 0.0, 10.0))
+        if not case["user_first"]:
+            prod.add_listener(et, la)
+        prod.add_listener(et, lb)
+        fire(1)
+        for i in range(case["reinits"]):
+            sim.initialize(model, SingleReplication("r", 0.0, 0.0, 10.0))
+            fire(2 + i)
+        want = []
+        for v in range(1, 2 + case["reinits"]):
+            v = v if case["stat"] == "SimCounter" else float(v)
+            want += [("a", v), ("b", v)]
+        if got != want:
+            missing = [w for w in want if w not in got]
+            out.fail("delivery:missing" if missing else "delivery:order",
+                     {"scenario": "ordinary listeners next to a simulation statistic across initialize()",
+                      "got": got, "want": want})
+        if case["stat"] != "SimPersistent" and model.stat.n() != 1:     # (a persistent counts intervals)
+            out.fail("delivery:wrong-recipients", {"statistic_n": model.stat.n(), "want": 1,
+                                                   "note": "only the statistic of the current replication listens"})
+    except Exception as e:
+        out.fail("sim-listeners-raises:" + type(e).__name__, repr(e))
+    finally:
+        try:
+            sim.cleanup()
+        except Exception:
+            pass
+    out.nontrivial = True
+    out.label("kind=sim-listeners")
+
+
 def run_case(case):
-    pubsub, types, mtypes = _env()
     out = Outcome()
+    if case.get("kind") == "sim-listeners":
+        _run_sim_listeners(case, out)
+        return out
+    return _run_case_history(case, out)
+
+
+def _run_case_history(case, out):
+    pubsub, types, mtypes = _env()
     scripts = case["scripts"]
     real, model = _Real(scripts), _Model(scripts)
     nops = 0
